@@ -98,6 +98,7 @@ pub fn parse_action(s: &str) -> Option<Action> {
         "ArmFetch" => Action::ArmFetch(n(0)?),
         "Fetched" => Action::Fetched(n(0)?),
         "Settle" => Action::Settle,
+        "Settle0" => Action::Settle0(n(0)?),
         "Isolate" => Action::Isolate(n(0)?),
         "DropAll" => Action::DropAll,
         _ => return None,
